@@ -23,24 +23,32 @@ META = dict(
 
 Q = 'MC_RingQueues'
 C = 'MC_RingChannel'
-# (module, cfg, timeout)
-MC_QUICK = [(Q, 'MC_RingQueues_mpmc_pp21.cfg', 900), (Q, 'MC_RingQueues_mpmc_sr21.cfg', 900), (Q, 'MC_RingQueues_mpmc_wrap.cfg', 900),
-            (Q, 'MC_RingQueues_batch21.cfg', 900), (Q, 'MC_RingQueues_batch_wrap.cfg', 900), (Q, 'MC_RingQueues_spsc.cfg', 900),
-            (C, 'MC_RingChannel_small.cfg', 900), (C, 'MC_RingChannel_quick.cfg', 900)]
-MC_THOROUGH = MC_QUICK + [
-    (Q, 'MC_RingQueues_mpmc_pp.cfg', 3000), (Q, 'MC_RingQueues_mpmc_sr.cfg', 3000), (Q, 'MC_RingQueues_mpmc_mix.cfg', 3000),
-    (Q, 'MC_RingQueues_mpmc_wrapsr.cfg', 900), (Q, 'MC_RingQueues_mpmc_wrap21.cfg', 900), (Q, 'MC_RingQueues_mpmc_wrap12.cfg', 900),
-    (Q, 'MC_RingQueues_mpmc_cap4.cfg', 3000), (Q, 'MC_RingQueues_batch.cfg', 3000), (Q, 'MC_RingQueues_batch_cap4.cfg', 3000),
-    (Q, 'MC_RingQueues_spsc_cap4.cfg', 900),
-    (C, 'MC_RingChannel_timed.cfg', 3000), (C, 'MC_RingChannel_notimeout.cfg', 3000), (C, 'MC_RingChannel_os.cfg', 3000),
-    (C, 'MC_RingChannel_full.cfg', 3000)]
+# (module, cfg, timeout) - ordered by cost, the expensive ones first (they overlap with the cheap ones)
+MC_QUICK = [(C, 'MC_RingChannel_q12.cfg', 900), (Q, 'MC_RingQueues_mpmc_wrap21.cfg', 900), (C, 'MC_RingChannel_q21.cfg', 900),
+            (Q, 'MC_RingQueues_mpmc_pp1.cfg', 900), (Q, 'MC_RingQueues_mpmc_wrap.cfg', 900), (C, 'MC_RingChannel_small.cfg', 900),
+            (Q, 'MC_RingQueues_spsc.cfg', 900), (Q, 'MC_RingQueues_batch21.cfg', 900), (Q, 'MC_RingQueues_batch_wrap.cfg', 900),
+            (Q, 'MC_RingQueues_mpmc_sr21.cfg', 900)]
+MC_THOROUGH = [
+    (Q, 'MC_RingQueues_mpmc_pp.cfg', 3400), (Q, 'MC_RingQueues_batch_cap4.cfg', 3400), (C, 'MC_RingChannel_mid.cfg', 3400),
+    (C, 'MC_RingChannel_mid_notimeout.cfg', 3400), (Q, 'MC_RingQueues_mpmc_mix.cfg', 3400), (C, 'MC_RingChannel_os.cfg', 3400),
+    (Q, 'MC_RingQueues_mpmc_cap4.cfg', 3400), (C, 'MC_RingChannel_full_notimeout.cfg', 3400), (Q, 'MC_RingQueues_batch2.cfg', 3400),
+    (Q, 'MC_RingQueues_mpmc_wrap12.cfg', 1800), (C, 'MC_RingChannel_full.cfg', 1800), (Q, 'MC_RingQueues_mpmc_sr.cfg', 900),
+    (Q, 'MC_RingQueues_mpmc_wrapsr.cfg', 900), (Q, 'MC_RingQueues_spsc_cap4.cfg', 900)] + MC_QUICK
+# the full 2 x 2 x 2 channel population (31.5 million states each, ~25 CPU minutes each): VERIF_C07_BIG=1
+MC_BIG = [(C, 'MC_RingChannel_big_timed.cfg', 7200), (C, 'MC_RingChannel_big_notimeout.cfg', 7200)]
 # broken variants: (module, cfg, invariant that must be violated)
 BROKEN = [(Q, 'MC_RingQueues_mpmc_broken.cfg', 'NoTornSlot'), (Q, 'MC_RingQueues_batch_broken.cfg', 'NoTornSlot'),
           (Q, 'MC_RingQueues_spsc_broken.cfg', 'NoTornSlot'),
           (C, 'MC_RingChannel_broken_idler.cfg', 'NotStuckNonEmpty'), (C, 'MC_RingChannel_broken_waiters.cfg', 'NotStuckNonFull')]
+# behaviours of the code AS IT IS that lie outside what C07 states (see META.note); kept as witnesses, run in the thorough tier and
+# recorded in the evidence, never a violation: (cfg, what TLC reports, text)
+WITNESS = [('MC_RingQueues_kf_wrap4.cfg', 'Terminates',
+            'MPMC queue, capacity >= 4: after the 64-bit index wraps the slot marks never match again (mark word and index word wrap at different turns): push spins forever; needs 2^64 operations'),
+           ('MC_RingQueues_kf_pushfull.cfg', 'FailJustified',
+            'MPMC queue: push() returns false on a queue that holds nothing unread when `capacity` fetch_add recv() callers are ahead of tail and the slot at tail is still being read (check_full compares the indices modulo the capacity)')]
 SPEC, CFG = 'Trace_RingA', 'Trace_RingA.cfg'
-MODES_Q = [('mpmc', 120), ('batch', 80), ('spsc', 60), ('chan', 120), ('wrap', 60)]
-MODES_T = [('mpmc', 700), ('batch', 450), ('spsc', 300), ('chan', 500), ('wrap', 300)]
+MODES_Q = [('mpmc', 120), ('batch', 80), ('spsc', 60), ('chan', 140), ('wrap', 60), ('prfull', 6)]
+MODES_T = [('mpmc', 800), ('batch', 450), ('spsc', 300), ('chan', 700), ('wrap', 300), ('prfull', 20)]
 
 
 def _tamper(execs):
@@ -87,11 +95,18 @@ def _mc_parallel(ctx, runs, broken, par=4, workers=4):
 def run(ctx):
     quick = ctx.tier == 'quick'
     ctx.samples.append({'constants_queues': open(f'{vtlib.SPEC}/MC_RingQueues_mpmc_pp21.cfg').read(),
-                        'constants_channel': open(f'{vtlib.SPEC}/MC_RingChannel_quick.cfg').read()})
+                        'constants_channel': open(f'{vtlib.SPEC}/MC_RingChannel_q12.cfg').read()})
     if not os.environ.get('VERIF_SKIP_MC'):
         broken = BROKEN[:1] + BROKEN[3:4] if quick else BROKEN
-        if not _mc_parallel(ctx, MC_QUICK if quick else MC_THOROUGH, broken):
+        runs = (MC_QUICK if quick else MC_THOROUGH) + (MC_BIG if os.environ.get('VERIF_C07_BIG') else [])
+        if not _mc_parallel(ctx, runs, broken):
             return ctx.finish()
+        if not quick:
+            wit = {}
+            for cfg, what, text in WITNESS:
+                r = ctx.mc(Q, cfg, timeout=900, workers=4, count=False)
+                wit[cfg] = {'expected': what, 'reported': r['inv_violated'] or ('Terminates' if r['prop_violated'] else []), 'what': text}
+            ctx.extra['as_is_behaviours_outside_C07'] = wit
     ctx.build_lib()
     h = ctx.build_harness('h_ring')
     if os.environ.get('VERIF_C07_HARNESS'):      # mutation experiments: a harness binary compiled against a mutated copy of the header
@@ -145,6 +160,10 @@ def run(ctx):
             raise vtlib.InfraError('Trace_RingA accepts a history that returns a value twice (vacuous trace specification)')
     if not settles and not ctx.violations:
         raise vtlib.InfraError('no Settle observation was recorded in any channel execution (the lost-wake-up clause was not exercised)')
+    ob = [r for r in allrows if r['e'] == 'Observed']
+    ctx.extra['push_refused_on_empty_queue_scenario'] = {'staged': sum(1 for r in ob if r['staged']), 'refused': sum(1 for r in ob if r['refused'])}
+    gt = [r for r in allrows if r['e'] == 'Gate']
+    ctx.extra['gated_scenarios'] = {'run': len(gt), 'gate_reached': sum(1 for r in gt if r['reached'] and not r['dropped'])}
     if os.environ.get('VERIF_C07_WRAP4'):
         # documented, not judged: MPMC capacity 4 started right below the wrap of the 64-bit index (see META.note)
         trace = f'{ctx.out}/wrap4.ndjson'
